@@ -3,5 +3,5 @@
 set -e
 export GOFLAGS=-mod=mod GOPROXY=off GOSUMDB=off GOTOOLCHAIN=local
 S=${S:-/tmp/vscratch.dev}
-rm -rf $S && mkdir -p $S/rp && rsync -a --exclude .git /repo/ $S/repo/ && mkdir -p $S/repo/cty/verifseam && cp /verif/seam/seam.go $S/repo/cty/verifseam/ && sed -i 's/^go 1.18/go 1.20/' $S/repo/go.mod && /verif/bin/instrument $S/repo >/dev/null
+rm -rf $S && mkdir -p $S/rp && rsync -a --exclude .git ${R:-/repo}/ $S/repo/ && mkdir -p $S/repo/cty/verifseam && cp /verif/seam/seam.go $S/repo/cty/verifseam/ && sed -i 's/^go 1.18/go 1.20/' $S/repo/go.mod && /verif/bin/instrument $S/repo >/dev/null
 cd /verif && sed "s#=> /repo#=> $S/repo#" go.mod > $S/verif.mod && cp go.sum $S/verif.sum && go build -modfile=$S/verif.mod -tags verif $RACE -o $S/simworker ./sim && echo BUILT $S
